@@ -1305,3 +1305,116 @@ def scatter_nest_rule(interp, s, frame, st, lo, hi, item_fn):
     for name in _assigned_names([s]):
         frame.env[name] = UnboundAfterLoop(name, where)
     return None
+
+
+# ----------------------------------------------------------------------------------------------
+# map loops:  for x in <symbolic sequence>: ...; L1.append(e1(x)); L2.append(e2(x))
+
+
+def map_append_rule(interp, s, frame, st, lo, hi, item_fn):
+    """Rule for a symbolic loop whose only effect is to append ONE element per iteration to some lists that are empty
+    before the loop and are not otherwise used in the body, the element depending on the iteration only (no loop-carried
+    variable, no store into existing storage).  The body may fork (if/else): no merge is made.  The lists become
+    symbolic sequences of length hi - lo whose element p is obtained by executing the body AT iteration lo + p when the
+    element is read — a branch of the body is then a branch of the reading statement (Fork), so aliasing and path
+    conditions of each branch stay exact.  Conditions (checked here, the rule declines with NotImplemented otherwise):
+      * syntactic: the list names occur in the body only as top-level statements `L.append(expr)`, one per list; no
+        break/continue/return; no else clause;
+      * one discovery execution at a fresh index (every path): every path ends normally, leaves every pre-existing heap
+        cell untouched except that each list grew by one element, reads no variable assigned in the body before assigning
+        it (such variables are removed from the environment of the discovery run), its side obligations are recorded.
+    Variables assigned in the body are unbound after the loop.  Reads of an element evaluate the body against the heap
+    content of the loop's pre-state (numpy evaluates eagerly)."""
+    if s.orelse:
+        return NotImplemented
+    body = s.body
+    lists = {}
+    for b in body:
+        if isinstance(b, ast.Expr) and isinstance(b.value, ast.Call) and isinstance(b.value.func, ast.Attribute) \
+                and b.value.func.attr == "append" and isinstance(b.value.func.value, ast.Name) and len(b.value.args) == 1 and not b.value.keywords:
+            nm = b.value.func.value.id
+            if nm in lists:
+                return NotImplemented
+            lists[nm] = b
+    if not lists:
+        return NotImplemented
+    allowed = {id(b.value.func.value) for b in lists.values()}
+    for b in body:
+        for n in ast.walk(b):
+            if isinstance(n, (ast.Return, ast.Break, ast.Continue)):
+                return NotImplemented
+            if isinstance(n, ast.Name) and n.id in lists and id(n) not in allowed:
+                return NotImplemented
+    refs = {}
+    for nm in lists:
+        v = frame.env.get(nm)
+        if not (isinstance(v, Ref) and v.kind == "list"):
+            return NotImplemented
+        c = st.heap[v.sid].data
+        if isinstance(c, A.SeqVal) or len(c) != 0:
+            return NotImplemented
+        refs[nm] = v
+    sids = {v.sid for v in refs.values()}
+    if len(sids) != len(refs):
+        return NotImplemented
+    # no other reference to the lists (environment or heap)
+    for k, v in frame.env.items():
+        if isinstance(v, Ref) and v.sid in sids and k not in refs:
+            return NotImplemented
+    for c in st.heap.values():
+        vals = c.data.values() if isinstance(c.data, dict) else (c.data if isinstance(c.data, (tuple, list)) else ())
+        for v in vals:
+            if isinstance(v, Ref) and v.sid in sids:
+                return NotImplemented
+    try:
+        if not interp.decide(sv.cmp(">=", hi, lo)):
+            return NotImplemented
+    except Fork:
+        return NotImplemented
+    where = f"{frame.fname}:{s.lineno}"
+    assigned = _assigned_names(body) | _assigned_names([ast.Assign(targets=[s.target], value=ast.Constant(0))])
+    env0 = {k: v for k, v in frame.env.items() if k not in assigned}
+    heap0 = dict(st.heap)
+    # ---- discovery at a fresh iteration
+    k = sv.fresh_int("m")
+    fr = Frame(frame.module, dict(env0), frame.fname)
+    st2 = st.fork()
+    st2.pc = list(st.pc) + [sv.zb(sv.cmp(">=", k, lo)), sv.zb(sv.cmp("<", k, hi))]
+    with use_state(st2):
+        interp.assign(s.target, item_fn(k), fr)
+        outs = interp.exec_block_paths(body, fr, st2)
+    for fr1, st1, out in outs:
+        if out[0] != "normal":
+            return NotImplemented
+        for sid, c in heap0.items():
+            if sid in sids:
+                d = st1.heap[sid].data
+                if isinstance(d, A.SeqVal) or len(d) != 1:
+                    return NotImplemented
+            elif st1.heap.get(sid) is not c:
+                return NotImplemented
+    order = sorted(refs, key=lambda nm: refs[nm].sid)
+
+    def element(p, nm):
+        cst = cur()
+        saved = cst.heap
+        work = dict(saved)
+        work.update(heap0)
+        before = set(work)
+        cst.heap = work
+        try:
+            f2 = Frame(frame.module, dict(env0), frame.fname)
+            interp.assign(s.target, item_fn(A.simp(sv.add(lo, p))), f2)
+            interp.exec_body_single(body, f2)
+            val = cst.heap[refs[nm].sid].data[-1]
+        finally:
+            new = {sid: c for sid, c in cst.heap.items() if sid not in before}
+            cst.heap = saved
+            saved.update(new)
+        return val
+    n = A.simp(sv.sub(hi, lo))
+    for nm in order:
+        st.heap[refs[nm].sid] = Content("list", A.SeqVal(n, (lambda p, nm=nm: element(p, nm))), st.heap[refs[nm].sid].meta)
+    for nm in assigned:
+        frame.env[nm] = UnboundAfterLoop(nm, where)
+    return None
